@@ -213,6 +213,13 @@ br_poly1305_ctmul_run(const void *key, const void *iv,
 		int j;
 
 		j = (i >= 5) ? i - 5 : i;
+		if (i == 5) {
+			/*
+			 * The carry out of acc[4] has weight 2^130,
+			 * which is 5 modulo p.
+			 */
+			cc *= 5;
+		}
 		acc[j] += cc;
 		cc = acc[j] >> 26;
 		acc[j] &= 0x03FFFFFF;
